@@ -74,6 +74,37 @@ func copiesOf(v ssa.Value) map[ssa.Value]bool {
 					out[yv] = true
 					work = append(work, yv)
 				}
+			case *ssa.Store:
+				// spilled into a variable (because a closure captures it): loads of that variable are copies as long as
+				// nothing else is ever stored into it
+				cell, ok := y.Addr.(*ssa.Alloc)
+				if !ok || y.Val != x {
+					continue
+				}
+				only := true
+				for _, st := range storesTo(cell) {
+					if !out[st.Val] {
+						only = false
+					}
+				}
+				if cell.Referrers() != nil {
+					for _, cr := range *cell.Referrers() {
+						if mc, ok := cr.(*ssa.MakeClosure); ok && !isLocalHelperClosure(mc) {
+							only = false // captured by a goroutine / escaping closure: that is a different owner
+						}
+					}
+				}
+				if !only {
+					continue
+				}
+				for _, f := range withAnon(cell.Parent()) {
+					instrs(f, func(_ *ssa.BasicBlock, _ int, in ssa.Instruction) {
+						if ld, ok := in.(*ssa.UnOp); ok && ld.Op == token.MUL && cellOf(ld.X) == cell && !out[ld] {
+							out[ld] = true
+							work = append(work, ld)
+						}
+					})
+				}
 			case *ssa.Phi:
 				// a phi of only copies of v is a copy
 				all := true
@@ -336,7 +367,13 @@ func ruleOwnParams(c *Ctx, r *R) {
 					otherUse = "passed to " + funcShort(u.fn) + " which does not take ownership"
 				}
 			case "captured":
-				forms["goroutine"] = true
+				if mc, ok := u.in.(*ssa.MakeClosure); ok && isLocalHelperClosure(mc) {
+					// a function literal that is only ever called in place (advanceTo := func(…){… s.Next …}): its uses are
+					// uses by this function
+					forms["here"] = true
+				} else {
+					forms["goroutine"] = true
+				}
 			case "returned":
 				otherUse = "returned unchanged"
 			case "other":
@@ -700,4 +737,67 @@ func closeWaits(fn *ssa.Function) (waits, cancels, order bool) {
 		order = cancelIn.Block().Dominates(waitIn.Block()) && (cancelIn.Block() != waitIn.Block() || idxIn(cancelIn) < idxIn(waitIn))
 	}
 	return
+}
+
+// isLocalHelperClosure: the closure value is only called directly by the function that creates it (possibly through a local
+// variable); it is never started as a goroutine, deferred, passed on, stored in the heap or returned.
+func isLocalHelperClosure(mc *ssa.MakeClosure) bool {
+	if mc.Referrers() == nil {
+		return false
+	}
+	onlyCalled := func(v ssa.Value) bool {
+		if v.Referrers() == nil {
+			return false
+		}
+		n := 0
+		for _, ref := range *v.Referrers() {
+			switch x := ref.(type) {
+			case *ssa.Call:
+				if x.Call.Value != v {
+					return false
+				}
+				n++
+			case *ssa.DebugRef:
+			default:
+				return false
+			}
+		}
+		return n > 0
+	}
+	called := false
+	for _, ref := range *mc.Referrers() {
+		switch x := ref.(type) {
+		case *ssa.Call:
+			if x.Call.Value != ssa.Value(mc) {
+				return false
+			}
+			called = true
+		case *ssa.Store:
+			cell, ok := x.Addr.(*ssa.Alloc)
+			if !ok || cell.Referrers() == nil {
+				return false
+			}
+			for _, r2 := range *cell.Referrers() {
+				switch y := r2.(type) {
+				case *ssa.Store, *ssa.DebugRef:
+				case *ssa.UnOp:
+					if !onlyCalled(y) {
+						return false
+					}
+					called = true
+				case *ssa.MakeClosure:
+					// captured by another local helper (or by itself, for recursion): accept only if that one is local too
+					if y != mc && !isLocalHelperClosure(y) {
+						return false
+					}
+				default:
+					return false
+				}
+			}
+		case *ssa.DebugRef:
+		default:
+			return false
+		}
+	}
+	return called
 }
